@@ -112,7 +112,7 @@ func (g *cfctx) body(depth int, inLoop bool) []Stmt {
 }
 
 // Cflow placements.
-var CflowPlacements = []string{"func", "main", "closure", "module"}
+var CflowPlacements = []string{"func", "main", "closure", "module", "main-returns"}
 
 // CflowProgram is one generated element.
 type CflowProgram struct {
@@ -125,11 +125,13 @@ type CflowProgram struct {
 func Cflow(cfg CflowCfg) func(ch *Chooser) CflowProgram {
 	return func(ch *Chooser) CflowProgram {
 		pl := CflowPlacements[ch.Choose(len(CflowPlacements))]
+		// "main-returns": return statements are generated although the body is placed at top level:
+		// every such program must be rejected ("return not allowed outside function")
 		g := &cfctx{ch: ch, cfg: cfg, budget: cfg.Budget, inFunc: pl != "main"}
 		body := g.body(0, false)
 		p := &Program{Inputs: []string{"P", "Q"}}
 		switch pl {
-		case "main":
+		case "main", "main-returns":
 			p.Main = append([]Stmt{Def("x", N("0")), Def("p", I("P")), Def("q", I("Q"))}, body...)
 			p.Main = append(p.Main, Def("out", I("x")))
 		case "func":
